@@ -1350,3 +1350,114 @@ def real_dtd(dtd_text: str):
     cls = DtdMapper.build_class(el, "mem.dtd")
     sites = renumber([export_attr(a, i) for i, a in enumerate(a for a in cls.attrs if a.is_element)])
     return content, sites
+
+
+# --------------------------------------------------------------------------
+# simple types -> python field types  (model: lean/XsdataModel/Gen/FieldType.lean)
+#   sty := {"b": code} | {"r": sty, "pattern": bool} | {"l": sty} | {"u": [sty…]}
+#   decl := {"attr": bool, "min": n, "max": n}
+# --------------------------------------------------------------------------
+TYPE_DECLS = [{"attr": False, "min": 1, "max": 1}, {"attr": False, "min": 0, "max": 1}, {"attr": False, "min": 0, "max": 3},
+              {"attr": False, "min": 1, "max": 3}, {"attr": True, "min": 1, "max": 1}, {"attr": True, "min": 0, "max": 1}]
+LIST_CODES = ("NMTOKENS", "IDREFS", "ENTITIES")
+
+
+def datatype_codes():
+    from xsdata.models.enums import DataType
+
+    return [d.code for d in DataType]
+
+
+def sty_has_list(t):
+    if "b" in t:
+        return t["b"] in LIST_CODES
+    if "r" in t:
+        return sty_has_list(t["r"])
+    if "l" in t:
+        return True
+    return any(sty_has_list(m) for m in t["u"])
+
+
+def sty_shape(t):
+    if "b" in t:
+        return "b"
+    if "r" in t:
+        return ("rp(" if t["pattern"] else "r(") + sty_shape(t["r"]) + ")"
+    if "l" in t:
+        return ("la(" if t.get("anon") else "l(") + sty_shape(t["l"]) + ")"
+    return "u(" + ",".join(sty_shape(m) for m in t["u"]) + ")"
+
+
+def gen_sty(rng, depth, atomic=False):
+    """a random simple type; `atomic`: usable as the item type of a list (no list inside)"""
+    codes = [c for c in datatype_codes() if c != "anyType"]
+    if depth == 0 or rng.random() < 0.25:
+        pool = [c for c in codes if not (atomic and c in LIST_CODES)]
+        # the members the handlers treat specially come up often
+        if rng.random() < 0.3:
+            pool = [c for c in ("error", "anySimpleType", "NMTOKENS", "ENTITIES", "IDREFS", "hexBinary", "string", "int", "long") if c in pool]
+        return {"b": rng.choice(pool)}
+    k = rng.choice(["r", "r", "l", "u", "u"] if not atomic else ["r", "u"])
+    if k == "r":
+        return {"r": gen_sty(rng, depth - 1, atomic), "pattern": rng.random() < 0.3}
+    if k == "l":
+        item = gen_sty(rng, depth - 1, True)
+        t = {"l": item}
+        if ("r" in item and not item["pattern"] and "b" in item["r"]) or ("u" in item and all("b" in m for m in item["u"])):
+            t["anon"] = rng.random() < 0.6
+        return t
+    return {"u": [gen_sty(rng, depth - 1, atomic) for _ in range(rng.randint(1, 3))]}
+
+
+def sty_xsd(t, decls):
+    """every derived simple type as a NAMED xs:simpleType (children first), one element r whose
+    type declares d0… with the type"""
+    defs = []
+
+    def name_of(t):
+        if "b" in t:
+            return "xs:" + t["b"]
+        if "r" in t:
+            base = name_of(t["r"])
+            body = f'<xs:restriction base="{base}">' + ('<xs:pattern value="[^#]*"/>' if t["pattern"] else "") + "</xs:restriction>"
+        elif "l" in t and t.get("anon"):
+            # the item type as an anonymous simpleType child (a facet-free restriction or a union of builtins)
+            it = t["l"]
+            inner = (f'<xs:restriction base="{name_of(it["r"])}"/>' if "r" in it
+                     else '<xs:union memberTypes="' + " ".join(name_of(m) for m in it["u"]) + '"/>')
+            body = f"<xs:list><xs:simpleType>{inner}</xs:simpleType></xs:list>"
+        elif "l" in t:
+            body = f'<xs:list itemType="{name_of(t["l"])}"/>'
+        else:
+            body = '<xs:union memberTypes="' + " ".join(name_of(m) for m in t["u"]) + '"/>'
+        n = f"t{len(defs)}"
+        defs.append(f' <xs:simpleType name="{n}">{body}</xs:simpleType>\n')
+        return n
+
+    tn = name_of(t)
+    els = "".join(f'    <xs:element name="d{i}" type="{tn}"{occ_attrs(d["min"], d["max"])}/>\n' for i, d in enumerate(decls) if not d["attr"])
+    ats = "".join(f'   <xs:attribute name="d{i}" type="{tn}"{" use=" + chr(34) + "required" + chr(34) if d["min"] else ""}/>\n'
+                  for i, d in enumerate(decls) if d["attr"])
+    return (f'<?xml version="1.0"?>\n<xs:schema xmlns:xs="http://www.w3.org/2001/XMLSchema">\n{"".join(defs)}'
+            f' <xs:element name="r">\n  <xs:complexType>\n   <xs:sequence>\n{els}   </xs:sequence>\n{ats}  </xs:complexType>\n </xs:element>\n</xs:schema>\n')
+
+
+def real_field_types(t, decls):
+    """the whole real pipeline (+ stand-in renderer, which calls the real Filters.field_type): the
+    annotation of the field of every declaration, the tokens flag and whether a pattern is recorded"""
+    import dataclasses
+
+    import codegen_run as CG
+
+    g = CG.run_pipeline({"s.xsd": sty_xsd(t, decls)})
+    try:
+        if g.error is not None:
+            raise g.error
+        fs = {f.metadata.get("name", f.name): f for f in dataclasses.fields(g.classes()["R"])}
+        fl = [fs[f"d{i}"] for i in range(len(decls))]
+        tokens = {bool(f.metadata.get("tokens")) for f in fl}
+        pattern = {"pattern" in f.metadata for f in fl}
+        assert len(tokens) == 1 and len(pattern) == 1, (tokens, pattern)
+        return {"tokens": tokens.pop(), "pattern": pattern.pop(), "fields": [str(f.type) for f in fl]}
+    finally:
+        g.close()
